@@ -44,6 +44,8 @@ func main() {
 	switch os.Args[1] {
 	case "check":
 		os.Exit(cmdCheck(os.Args[2:]))
+	case "feas":
+		os.Exit(cmdFeas(os.Args[2:]))
 	case "fn":
 		os.Exit(cmdFn(os.Args[2:]))
 	default:
@@ -523,7 +525,9 @@ func cmdCheck(args []string) int {
 	if violations > 0 {
 		return 1
 	}
-	os.RemoveAll(filepath.Join(outDir, "smt"))
+	if os.Getenv("SSOVC_KEEP") == "" {
+		os.RemoveAll(filepath.Join(outDir, "smt"))
+	}
 	return 0
 }
 
@@ -560,3 +564,69 @@ var replayRegression []map[string]interface{}
 
 // auditRecords: the bounded assumption audits run in this (thorough) run.
 var auditRecords []map[string]interface{}
+
+// cmdFeas: a census of explored paths whose assumptions are unsatisfiable (the path is infeasible), per function of a
+// property. Paths can be genuinely infeasible; a change of the census after an engine change points at assumptions
+// the engine itself made contradictory (vacuous proofs). Development aid, not part of any check.
+func cmdFeas(args []string) int {
+	fs := flag.NewFlagSet("feas", flag.ExitOnError)
+	prop := fs.String("property", "", "property id")
+	fs.Parse(args)
+	vd := verifDir()
+	eng, err := loadEngine(repoDir(), filepath.Join(vd, "spec"), []string{"./internal/..."})
+	if err != nil {
+		fmt.Println("load:", err)
+		return 2
+	}
+	var cfgs map[string]*PropCfg
+	if b, err := os.ReadFile(filepath.Join(vd, "spec", "props.json")); err != nil || json.Unmarshal(b, &cfgs) != nil {
+		fmt.Println("cannot read props.json")
+		return 2
+	}
+	cfg := cfgs[*prop]
+	if cfg == nil {
+		fmt.Println("no such property")
+		return 2
+	}
+	outDir := filepath.Join(outBase(), "out", "feas")
+	os.RemoveAll(outDir)
+	tot, inf := 0, 0
+	for _, name := range cfg.Functions {
+		fn := eng.fnByShort(name)
+		if fn == nil {
+			continue
+		}
+		r := eng.verifyFunction(fn, eng.contractFor(fn), 4096)
+		last := map[string]*VC{}
+		for _, vc := range r.VCs {
+			if vc.Kind == "cover" {
+				continue
+			}
+			if o, ok := last[vc.Trace]; !ok || len(vc.Asserts) > len(o.Asserts) {
+				last[vc.Trace] = vc
+			}
+		}
+		var probes []*VC
+		for tr, vc := range last {
+			probes = append(probes, &VC{Ob: name + "/feasible", Fn: name, Kind: "feas", Trace: tr, Asserts: vc.Asserts, Goal: TFalse})
+		}
+		solveAll(probes, solveCfg{outDir: filepath.Join(outDir, "smt"), quickSec: 2, fullSec: 2, jobs: 16})
+		n := 0
+		var which []string
+		for _, p := range probes {
+			if p.Verdict == "unsat" {
+				n++
+				which = append(which, p.Trace)
+			}
+		}
+		sort.Strings(which)
+		fmt.Printf("%-70s paths=%d infeasible=%d\n", name, len(probes), n)
+		for _, w := range which {
+			fmt.Printf("      %s\n", w)
+		}
+		tot += len(probes)
+		inf += n
+	}
+	fmt.Printf("TOTAL %s paths=%d infeasible=%d\n", *prop, tot, inf)
+	return 0
+}
